@@ -298,46 +298,40 @@ Proof.
 Qed.
 
 Lemma step_pending_tags w i :
-  pending_tags (fst (step w i)) =
-  match i with
-  | SetUri _ _ => Some []
-  | StreamStart => None
-  | Tag tl => option_map (fun d => dict_update d (convert_taglist tl)) (pending_tags w)
-  | _ => pending_tags w
-  end.
+  pending_tags (fst (step w i)) = upcoming_after (atf_cb (cfg w)) (pending_tags w) i.
 Proof.
-  destruct i; cbn [step]; try reflexivity.
+  unfold upcoming_after.
+  destruct i; cbn [step sets_uri]; try reflexivity.
   - destruct from_playbin; [apply on_state_changed_ptags|reflexivity].
   - apply on_buffering_ptags.
   - unfold on_tag. destruct (pending_tags w) eqn:P; [reflexivity|].
     destruct (tag_diff (tags w) (convert_taglist tl)). cbn. exact P.
+  - unfold on_about_to_finish. destruct in_actor_thread; [reflexivity|].
+    destruct next as [[u fl]|]; destruct (atf_cb (cfg w)); reflexivity.
+  - rewrite on_source_setup_world. reflexivity.
 Qed.
 
 Lemma pending_run : forall ins w,
-  pending_tags (final w ins) =
-  fold_left
-    (fun acc i =>
-       match i with
-       | SetUri _ _ => Some []
-       | StreamStart => None
-       | Tag tl => option_map (fun d => dict_update d (convert_taglist tl)) acc
-       | _ => acc
-       end)
-    ins (pending_tags w).
+  (atf_cb (cfg (final w ins)), pending_tags (final w ins)) =
+  fold_left (fun s i => (cb_after (fst s) i, upcoming_after (fst s) (snd s) i)) ins
+            (atf_cb (cfg w), pending_tags w).
 Proof.
   induction ins as [|i t IH]; intros w; [reflexivity|].
-  rewrite final_cons, IH, step_pending_tags. destruct i; reflexivity.
+  rewrite final_cons, IH, step_atf_cb, step_pending_tags. reflexivity.
 Qed.
 
 Theorem pending_is_upcoming : forall ins, pending_tags (final init ins) = upcoming_tags ins.
-Proof. intros ins. exact (pending_run ins init). Qed.
+Proof.
+  intros ins. pose proof (pending_run ins init) as H. apply (f_equal snd) in H. exact H.
+Qed.
 
 (* which inputs can emit tags_changed at all *)
 Lemma tag_items_source w i :
   match i with Tag _ | StreamStart => False | _ => True end ->
   existsb is_tags (o_evs (snd (step w i))) = false.
 Proof.
-  intros H. destruct i; try contradiction; cbn [step]; try reflexivity.
+  intros H. destruct i; try contradiction; cbn [step];
+    rewrite ?on_about_to_finish_evs, ?on_source_setup_evs; try reflexivity.
   - destruct from_playbin; [|reflexivity]. unfold on_state_changed.
     destruct n, p; cbn; try reflexivity; destruct (target w); cbn; reflexivity.
   - unfold on_buffering. destruct (rank (target w) <? rank PAUSED); [reflexivity|].
@@ -400,12 +394,12 @@ Qed.
 
 Lemma step_pending_wf w i : pending_wf w -> pending_wf (fst (step w i)).
 Proof.
-  unfold pending_wf. intros W t. rewrite step_pending_tags.
+  unfold pending_wf. intros W t. rewrite step_pending_tags. unfold upcoming_after.
+  destruct (sets_uri (atf_cb (cfg w)) i); [intros H; inversion H; constructor|].
   destruct i; try apply W.
   - destruct (pending_tags w) as [d|] eqn:P; cbn; [|discriminate].
     intros H. inversion H. apply nodup_update, W. reflexivity.
   - discriminate.
-  - intros H. inversion H. constructor.
 Qed.
 
 Lemma step_reported w acc i :
@@ -447,6 +441,8 @@ Proof.
     + intros k. reflexivity.
   - (* Eos *)
     intros k. reflexivity.
+  - apply on_about_to_finish_tags.
+  - rewrite on_source_setup_world. reflexivity.
 Qed.
 
 Lemma run_reported : forall ins w acc,
@@ -476,7 +472,7 @@ Proof. reflexivity. Qed.
 (* ---------------------------------------------------------------- examples (non-vacuity) *)
 
 Example withheld_then_reported :
-  all_events init [SetUri 1 false; Tag [(0, [Keep 5])]; Tag [(1, [Keep 6; Drop])]; StreamStart;
+  all_events init [SetUri 1 plain; Tag [(0, [Keep 5])]; Tag [(1, [Keep 6; Drop])]; StreamStart;
                    Tag [(0, [Keep 5]); (1, [Keep 7])]] =
   [EvStream (Some 1); EvTags [(0, [5]); (1, [6])]; EvTags [(1, [7])]].
 Proof. vm_compute. reflexivity. Qed.
@@ -492,6 +488,6 @@ Proof. vm_compute. reflexivity. Qed.
 Lemma prefix_live_view_refuted :
   exists pre rest, sent_keys pre <> late_view_keys pre rest.
 Proof.
-  exists [SetUri 1 false; Tag [(0, [Keep 1])]], [Tag [(1, [Keep 2])]].
+  exists [SetUri 1 plain; Tag [(0, [Keep 1])]], [Tag [(1, [Keep 2])]].
   vm_compute. discriminate.
 Qed.
